@@ -92,12 +92,15 @@ def _census(ctx, comp, rnd):
     ctx.extra.setdefault("random_scenarios_present", {})[comp] = sorted(have)
 
 
-def apalache(ctx, module, inv="IndInv"):
-    """Thorough tier: inductive invariant of the integer abstraction for unbounded histories and any capacity."""
-    for args, what in ((["--init=Init", "--length=0"], "Init => IndInv"),
-                       (["--init=IndInit", "--length=1"], "IndInv /\\ Next => IndInv'")):
+def apalache(ctx, module, inv="IndInv", implied=()):
+    """Thorough tier: inductive invariant of the integer abstraction for unbounded histories and any capacity.
+    `implied`: state predicates that must follow from the inductive invariant (IndInit => P)."""
+    obligations = [(["--init=Init", "--length=0"], "Init => IndInv", inv),
+                   (["--init=IndInit", "--length=1"], "IndInv /\\ Next => IndInv'", inv)]
+    obligations += [(["--init=IndInit", "--length=0"], "IndInv => " + p, p) for p in implied]
+    for args, what, goal in obligations:
         out_dir = os.path.join(ctx.work, "apalache")
-        cmd = ["apalache-mc", "check", "--cinit=ConstInit", "--inv=" + inv, "--out-dir=" + out_dir] + args + [module + ".tla"]
+        cmd = ["apalache-mc", "check", "--cinit=ConstInit", "--inv=" + goal, "--out-dir=" + out_dir] + args + [module + ".tla"]
         rc, out, dt = kit.run(cmd, cwd=kit.SPEC, timeout=900)
         ok = rc == 0 and "The outcome is: NoError" in out
         ctx.apalache.append({"module": module, "obligation": what, "ok": ok, "wall_s": round(dt, 1)})
